@@ -171,10 +171,12 @@ const (
 	opClose
 	opOpenAdd // the handle is opened inside the process, i.e. possibly after others committed
 	opCompactLastTwo
+	opTwoTables // one Addition with two tables (private refs p<k> and t<k>), committed together
+	opEmptyAdd  // a transaction without records: succeeds without creating a table
 	nOps
 )
 
-var opNames = []string{"Add", "AddAuto", "CompactAll", "CompactFirstTwo", "Reload", "Clean", "Close", "OpenAdd", "CompactLastTwo"}
+var opNames = []string{"Add", "AddAuto", "CompactAll", "CompactFirstTwo", "Reload", "Clean", "Close", "OpenAdd", "CompactLastTwo", "TwoTables", "EmptyAdd"}
 
 type procState struct {
 	id        byte
@@ -213,6 +215,10 @@ func runOp(p *procState) {
 		if n := len(p.st.stack); n >= 2 {
 			_, p.err = p.st.compactRange(n-2, n-1, nil)
 		}
+	case opTwoTables:
+		p.err = twoTableTxn(p.st, "p"+string([]byte{'0' + p.id}), "t"+string([]byte{'0' + p.id}))
+	case opEmptyAdd:
+		p.err = p.st.Add(func(w *Writer) error { return nil })
 	case opReload:
 		p.err = p.st.reload(true)
 	case opClean:
@@ -222,7 +228,7 @@ func runOp(p *procState) {
 	}
 }
 
-func isAdder(op int) bool { return op == opAdd || op == opAddAuto || op == opOpenAdd }
+func isAdder(op int) bool { return op == opAdd || op == opAddAuto || op == opOpenAdd || op == opTwoTables }
 
 func sortedKeysOf(m map[string]byte) string {
 	var ks []string
@@ -326,17 +332,24 @@ func finalChecks(dir string, cfg Config, nInit int, procs []*procState, checks i
 	lastShared, lastAt := byte(nInit-1), -1
 	nLogs := nInit
 	for _, p := range procs {
+		if p.op == opEmptyAdd {
+			_, committed := first[p]
+			VerifAssert(isLockFailure(p.err) && !committed, "empty-transaction-created-a-table-or-failed-otherwise")
+		}
 		if !isAdder(p.op) {
 			continue
 		}
 		at, committed := first[p]
-		if p.op == opAdd || p.op == opOpenAdd {
+		if p.op == opAdd || p.op == opOpenAdd || p.op == opTwoTables {
 			VerifAssert((p.err == nil) == committed, "add-result-matches-commit")
 		} else {
 			// Add followed by auto-compaction: the compaction's failure is reported too
 			VerifAssert(p.err != nil || committed, "add-result-matches-commit")
 		}
-		if committed {
+		if committed && p.op == opTwoTables {
+			want["p"+string([]byte{'0' + p.id})] = 1
+			want["t"+string([]byte{'0' + p.id})] = 2
+		} else if committed {
 			want["p"+string([]byte{'0' + p.id})] = p.id
 			nLogs++
 			if at > lastAt {
@@ -354,7 +367,7 @@ func finalChecks(dir string, cfg Config, nInit int, procs []*procState, checks i
 		VerifAssert(!ok || gv == v, "altered-update")
 	}
 	for _, p := range procs {
-		if _, committed := first[p]; committed && isAdder(p.op) {
+		if _, committed := first[p]; committed && isAdder(p.op) && p.op != opTwoTables {
 			VerifAssert(got.payload["p"+string([]byte{'0' + p.id})] == p.payload, "altered-update")
 		}
 	}
@@ -378,6 +391,8 @@ var quickPairs = [][]int{
 	{opOpenAdd, opOpenAdd},
 	{opCompactAll, opOpenAdd},
 	{opCompactLastTwo, opCompactAll},
+	{opTwoTables, opOpenAdd},
+	{opEmptyAdd, opCompactAll},
 }
 
 func pickPair() []int {
@@ -388,7 +403,7 @@ func pickPair() []int {
 }
 
 // Harness_C04_pairs: two processes, one operation each: no lost, altered or phantom update; Add succeeds iff committed; only lock failures.
-// bounds: 2 processes (own handles, opened before either runs); operation pairs: Add/Add, CompactAll/Add, CompactAll/Add+auto-compaction, compactRange(0,1)/CompactAll, Add/Clean, CompactAll/reload, Add/Close, Add/open+Add, open+Add/open+Add, CompactAll/open+Add, compactRange(top two)/CompactAll (open+Add: the handle is opened inside the process, so it may be fresh or stale) (thorough: all 81 pairs of the 9 operations); transaction payload byte arbitrary (symbolic); initial stack of 3 tables; every schedule with <= 2 preemptions at visible filesystem steps (thorough 3); sha1 (thorough: sha256 too)
+// bounds: 2 processes (own handles, opened before either runs); operation pairs: Add/Add, CompactAll/Add, CompactAll/Add+auto-compaction, compactRange(0,1)/CompactAll, Add/Clean, CompactAll/reload, Add/Close, Add/open+Add, open+Add/open+Add, CompactAll/open+Add, compactRange(top two)/CompactAll (open+Add: the handle is opened inside the process, so it may be fresh or stale) two-table Addition/open+Add, empty Add/CompactAll (thorough: all 121 pairs of the 11 operations); transaction payload byte arbitrary (symbolic); initial stack of 3 tables; every schedule with <= 2 preemptions at visible filesystem steps (thorough 3); sha1 (thorough: sha256 too)
 // covers: done
 func Harness_C04_pairs() {
 	scenario(pickPair(), 3, VerifChoose(1+VerifTier()), 2+VerifTier(), chkFinal|chkErrors)
